@@ -10,5 +10,8 @@ func TestMC(t *testing.T) {
 	var seqs []*mc.Seq
 	seqs = append(seqs, seqs40()...)
 	seqs = append(seqs, seqs41()...)
-	mc.Main(t, append(scenarios(), scenariosLocks()...), seqs)
+	scs := append(scenarios(), scenariosLocks()...)
+	scs = append(scs, scenariosRound3()...)
+	scs = append(scs, scenariosSweep()...)
+	mc.Main(t, scs, seqs)
 }
